@@ -249,11 +249,11 @@ def pack_dataclass(spec: ValueSpec) -> Optional[Expression]:
                 encoder=spec.builder.encoder,
             )
             != method_name
+            or spec.builder.dialect is not None
         ):
             builder = spec.builder.__class__(
                 spec.origin_type,
                 type_args,
-                dialect=spec.builder.dialect,
                 format_name=spec.builder.format_name,
                 default_dialect=spec.builder.default_dialect,
                 attrs=method_loc,
